@@ -16,5 +16,6 @@ func TestVerifReplay(t *testing.T) {
 		"VerifC07ScalarsV2":     VerifC07ScalarsV2,
 		"VerifC07ScalarsSignV2": VerifC07ScalarsSignV2,
 		"VerifC07IdV2":          VerifC07IdV2,
+		"VerifC07ArgsV3":        VerifC07ArgsV3,
 	})
 }
